@@ -24,7 +24,8 @@ Public API (keep it small):
     paths(n, p)                       all interleavings of append_epoch / sample_next_epoch /
                                       sample_all_epochs for n epochs of which p are given
                                       at construction
-    enable_compilation_cache()        per-process XLA compilation cache (deleted at exit)
+    enable_compilation_cache()        per-run XLA compilation cache (deleted at exit)
+    release_memory()                  drops jax's in-memory executables (build() does it every 20 engines)
 
 Config (all JSON-able)::
 
@@ -467,12 +468,13 @@ def epoch_config(item):
     return gs.EpochConfig(gs.EpochType[typ], int(dur), int(thin), None)
 
 
-def paths(n: int, p: int, with_all: bool = True) -> list[str]:
+def paths(n: int, p: int, min_pending_for_all: int = 1) -> list[str]:
     """
     All operation histories that take an engine constructed with ``p`` of ``n`` epochs
     to the state (n appended, n sampled): 'a' = append_epoch(next), 'n' =
-    sample_next_epoch(), 's' = sample_all_epochs() (only where at least one epoch is
-    pending). Sorted, shortest first.
+    sample_next_epoch(), 's' = sample_all_epochs() (only where at least
+    ``min_pending_for_all`` epochs are pending; with one pending epoch it does exactly
+    what sample_next_epoch does). Sorted, shortest first.
     """
     out = []
 
@@ -484,8 +486,7 @@ def paths(n: int, p: int, with_all: bool = True) -> list[str]:
             rec(a + 1, s, hist + "a")
         if s < a:
             rec(a, s + 1, hist + "n")
-            if with_all and a - s >= 1:
-                # sample_all == several sample_next; distinct op only as a call
+            if a - s >= min_pending_for_all:
                 rec(a, a, hist + "s")
 
     rec(p, 0, "")
@@ -557,14 +558,37 @@ def default_tracked(cfg) -> list[str]:
     kernel_keys = [k for spec in cfg["kernels"] for k in spec["keys"]]
     if cfg["via"] == "builder":
         keys = kernel_keys + list(cfg.get("included", []))
-        return [k for k in keys if k not in cfg.get("excluded", [])]
-    tr = cfg.get("tracked")
-    return list(tr) if tr else kernel_keys
+        keys = [k for k in keys if k not in cfg.get("excluded", [])]
+    else:
+        keys = list(cfg.get("tracked") or kernel_keys)
+    return list(dict.fromkeys(keys))
+
+
+_BUILDS = 0
+
+
+def release_memory():
+    """
+    Every Engine jits its own scan; jax keeps those executables in process-wide caches
+    (about 4 MB per engine). Dropping them is always safe (anything still needed is
+    re-traced and served from the compilation cache again).
+    """
+    import gc
+
+    import jax
+
+    jax.clear_caches()
+    gc.collect()
 
 
 def build(cfg: dict) -> Lab:
     """Builds a real engine for ``cfg`` (see module docstring)."""
     import jax
+
+    global _BUILDS
+    _BUILDS += 1
+    if _BUILDS % 20 == 0:
+        release_memory()
     import liesel.goose as gs
     from liesel.goose.engine import Engine
     from liesel.goose.kernel_sequence import KernelSequence
